@@ -742,6 +742,25 @@ pub fn cases(tier: Tier) -> Vec<AttrCase> {
             }
         }
     }
+    // many entries: counts around powers of two, names that sort before / after / between each
+    // other or share a long prefix, value types cycling through the representatives
+    for n in [3usize, 4, 5, 8, 16, 17, 31, 32, 33, 64, 127, 128, 129, 255, 256, 257, 1000, 5000] {
+        for style in 0..4 {
+            let entries = (0..n)
+                .map(|i| {
+                    let name = match style {
+                        0 => format!("k{}", i),
+                        1 => format!("a-common-prefix-of-more-than-thirty-two-bytes-{:05}", n - i),
+                        2 => format!("{}{}", "z".repeat(i % 7), i),
+                        _ => format!("\u{e9}{}\u{2603}", i * 7919 % n),
+                    };
+                    let (t, v) = &reps[(i * 5 + style) % reps.len()];
+                    (name, t.clone(), v.label.clone())
+                })
+                .collect();
+            out.push(AttrCase { entries });
+        }
+    }
     // three entries over the representatives
     let step = 1;
     for (i, (t1, v1)) in reps.iter().enumerate().step_by(step) {
@@ -771,7 +790,7 @@ pub fn check(run: &Run) -> Value {
         out.nontrivial += (!c.entries.is_empty()) as u64;
         out.executions += 1;
         let mut vs = judge(c);
-        if c.entries.len() <= 1 {
+        if c.entries.len() <= 1 || c.entries.len() >= 16 {
             out.executions += 6;
             vs.extend(judge_file(c));
             vs.extend(judge_stored_blobs(c));
@@ -796,7 +815,7 @@ pub fn check(run: &Run) -> Value {
         "doc_vectors_reproduced_by_spec_codec": vectors,
         "samples": total.samples.iter().map(|s| serde_json::from_str::<Value>(s).unwrap()).collect::<Vec<_>>(),
         "exhaustive": true,
-        "rule": "every attribute map of the bounded enumeration (0 entries; 1 entry: 6 names (empty, 1 byte, non-ASCII, 40 bytes, 1025 bytes, 1400 bytes) x every alphabet value (incl. 64 KiB / 200 KB strings) of the 19 supported types; 2 entries: every value next to 2 representatives per type; 3 entries over representatives) is (1) encoded and decoded by rbx_types, (2) decoded by an independent decoder written from docs/attributes.md, (3) re-encoded by an independent encoder and decoded by rbx_types; 0/1-entry maps additionally travel through a binary and an XML file as the Attributes property",
+        "rule": "every attribute map of the bounded enumeration (0 entries; 1 entry: 6 names (empty, 1 byte, non-ASCII, 40 bytes, 1025 bytes, 1400 bytes) x every alphabet value (incl. 64 KiB / 200 KB strings) of the 19 supported types; 2 entries: every value next to 2 representatives per type; 3 entries over representatives) is (1) encoded and decoded by rbx_types, (2) decoded by an independent decoder written from docs/attributes.md, (3) re-encoded by an independent encoder and decoded by rbx_types; maps of 3..5000 entries (counts around powers of two, four naming styles, value types cycling); 0/1-entry maps and those of >= 16 entries additionally travel through a binary and an XML file as the Attributes property",
     })
 }
 
